@@ -219,7 +219,10 @@ def _hashf(name, vals):
     h = hashlib.md5()
     h.update(str(name).encode())
     for v in vals:
-        arr = np.asarray(v, dtype=float).ravel() if not isinstance(v, str) else None
+        try:
+            arr = np.asarray(v, dtype=float).ravel() if not isinstance(v, str) else None
+        except (TypeError, ValueError):
+            v, arr = str(v), None
         if arr is None:
             h.update(b"s" + v.encode())
         else:
@@ -451,6 +454,16 @@ def _apply(op, a, t):
             return q
         if op == "trace":
             return np.trace(np.asarray(a[0]))
+        if op == "eye":
+            return np.eye(int(a[0]))
+        if op == "matinv":
+            return np.linalg.inv(np.asarray(a[0], dtype=float))
+        if op == "setblock":
+            m_ = np.array(a[0], dtype=float, copy=True)
+            m_[a[1]] = np.asarray(a[2], dtype=float)
+            return m_
+        if op == "getblock":
+            return np.asarray(a[0])[a[1]]
         if op == "sel":
             return a[0]
         if op == "call":
@@ -459,6 +472,8 @@ def _apply(op, a, t):
                 try:
                     return f(*a[1:])
                 except Exception as e:  # noqa
+                    if a[0] in ("getitem", "elem", ".astype"):
+                        return _hashf(a[0], [str(x) if not isinstance(x, (int, float, np.ndarray, np.floating)) else x for x in a[1:]])
                     raise EvalError(f"{a[0]}: {e}")
             return _hashf(a[0], a[1:])
         if op == "str":
